@@ -159,20 +159,25 @@ class Analysis:
                 return OWNED
             if f.attr in ("decode", "encode", "hex"):
                 return OWNED                          # a new str / bytes object
+            root = recv
+            while isinstance(root, (ast.Attribute, ast.Subscript)):
+                root = root.value
             if isinstance(recv, ast.Attribute) and isinstance(recv.value, ast.Name) and recv.value.id == "self" \
-                    and recv.attr == "header_table":
-                if f.attr == "get_by_index":
-                    return (STORED, STORED)
-                if f.attr == "add" and len(n.args) == 2:
-                    self.sites.append(("stored in the header table", n.lineno, (args[0], args[1])))
-                    return OWNED
-                if f.attr in ("search",):
-                    return STORED
-                return OWNED
+                    and recv.attr == "header_table" and f.attr in ("get_by_index", "search") :
+                return (STORED, STORED) if f.attr == "get_by_index" else STORED
             if isinstance(recv, ast.Name) and recv.id == "self" and f.attr in self.methods:
                 return self.apply(self.methods[f.attr], "self", n, args, env)
             if isinstance(recv, ast.Name) and recv.id in ("log", "logging"):
                 return OWNED
+            if isinstance(root, ast.Name) and root.id == "self":
+                # ANY other call on an object reached from self (self.header_table.add(...), with positional or keyword
+                # arguments; self.header_table.dynamic_entries.appendleft(...); self.anything.method(...)): what it is
+                # given may be kept -- a retention site for every argument
+                flat = args if args else [OWNED]
+                self.sites.append(("handed to self.%s (may be kept)" % ast.unparse(f)[5:60], n.lineno,
+                                   (max(worst(a) for a in flat), max(worst(a) for a in flat)) if len(flat) != 2
+                                   else (flat[0], flat[1])))
+                return OWNED if f.attr in ("add", "append", "appendleft", "clear", "extend", "insert") else VIEW
             return VIEW
         return VIEW
 
@@ -296,7 +301,13 @@ class Analysis:
             else:
                 for e in tgt.elts:
                     self.bind(e, worst(t), env, None)
-        # (stores into attributes / subscripts keep nothing that is tracked here)
+        elif isinstance(tgt, (ast.Attribute, ast.Subscript)):
+            root = tgt
+            while isinstance(root, (ast.Attribute, ast.Subscript)):
+                root = root.value
+            if isinstance(root, ast.Name) and (root.id == "self" or worst(env.get(root.id, VIEW)) != OWNED or True):
+                # stored into an object (self.x = v, self.d[k] = v, some_list[i] = v): it may outlive the call
+                self.sites.append(("stored into %s" % ast.unparse(tgt)[:50], getattr(tgt, "lineno", 0), (worst(t), worst(t))))
 
 
 def literal_copies(hp_tree, huff_tree):
@@ -315,8 +326,10 @@ def literal_copies(hp_tree, huff_tree):
     ret = a.body(fd.body, env)
     report = list(a.notes)
     ok = True
-    if not a.sites and not any(isinstance(x, ast.Attribute) and x.attr == "add" for x in ast.walk(fd)):
-        report.append("no header_table.add(...) site found")
+    if not a.sites:
+        # _decode_literal is the method that inserts literals: an analysis that saw no retention site has missed it
+        report.append("no retention site found in _decode_literal (the insertion into the header table was not recognised)")
+        ok = False
     for kind, line, tags in a.sites:
         w = worst(tags)
         report.append("line %d: %s: name %s, value %s" % (line, kind, NAMES[worst(tags[0])], NAMES[worst(tags[1])]))
@@ -333,6 +346,24 @@ def literal_copies(hp_tree, huff_tree):
             ok = False
     if a.notes:
         ok = False
+    # every other method of Decoder: nothing derived from a bytes-like parameter may be stored into the decoder or
+    # handed to one of its objects (what _decode_literal returns and stores was checked above)
+    for name, m in a.methods.items():
+        if name in ("_decode_literal", "__init__", "__repr__"):
+            continue
+        b = Analysis(hp_tree, huff_tree)
+        env = {}
+        for x in m.args.args[1:]:
+            env[x.arg] = OWNED if (x.annotation is not None and ast.unparse(x.annotation) in ("bool", "int")) else VIEW
+        b.byteslike = b.annot_bytes(m)
+        b.body(m.body, env)
+        for kind, line, tags in b.sites:
+            if worst(tags) == VIEW:
+                report.append("Decoder.%s line %d: %s: a view of the caller's buffer" % (name, line, kind))
+                ok = False
+        for nt in b.notes:
+            report.append("Decoder.%s: %s" % (name, nt))
+            ok = False
     return ok, report
 
 
